@@ -61,7 +61,7 @@ func bitsOf(v uint64, n int) []*big.Int {
 }
 
 func nonBit(t *rapid.T, p *big.Int, label string) *big.Int {
-	switch rapid.IntRange(0, 4).Draw(t, label+".nb") {
+	switch pick(t, 5, label+".nb") {
 	case 0:
 		return big.NewInt(2)
 	case 1:
@@ -89,7 +89,7 @@ func idxBiased(t *rapid.T, n, chunk int, label string) int {
 	if n <= 1 {
 		return 0
 	}
-	switch rapid.IntRange(0, 9).Draw(t, label+".where") {
+	switch pick(t, 10, label+".where") {
 	case 0:
 		return 0
 	case 1, 2:
@@ -167,7 +167,7 @@ func newSumCase(shares uint8, max uint64, ctx []byte) (*icase, *buildErr) {
 	}
 	c := &icase{I: I, name: "sum", desc: fmt.Sprintf("sum(shares=%d,max=%d)", shares, max), shares: int(shares), scalar: true}
 	c.genMeas = func(t *rapid.T, label string) (any, bool) {
-		switch rapid.IntRange(0, 5).Draw(t, label+".k") {
+		switch pick(t, 6, label+".k") {
 		case 0:
 			return uint64(0), true
 		case 1:
@@ -204,7 +204,7 @@ func newSumCase(shares uint8, max uint64, ctx []byte) (*icase, *buildErr) {
 	}
 	c.genEdit = func(t *rapid.T, m any) ([]edit, string) {
 		v := m.(uint64)
-		k := rapid.IntRange(0, 3).Draw(t, "sum.ek")
+		k := pick(t, 4, "sum.ek")
 		if k == 0 && max != uint64(1)<<uint(nb)-1 {
 			// out-of-range sum with every entry a bit: a' in (max, 2^bits),
 			// reported b' = (a'+offset) mod 2^bits
@@ -246,7 +246,7 @@ func newSumVecCase(shares uint8, length, nbits, chunk uint, ctx []byte) (*icase,
 	c := &icase{I: I, name: "sumvec", desc: fmt.Sprintf("sumvec(shares=%d,len=%d,bits=%d,chunk=%d)", shares, length, nbits, chunk), shares: int(shares), chunk: int(chunk)}
 	c.genMeas = func(t *rapid.T, label string) (any, bool) {
 		v := make([]uint64, length)
-		k := rapid.IntRange(0, 4).Draw(t, label+".k")
+		k := pick(t, 5, label+".k")
 		ext := false
 		switch k {
 		case 0:
@@ -258,7 +258,7 @@ func newSumVecCase(shares uint8, length, nbits, chunk uint, ctx []byte) (*icase,
 			ext = true
 		default:
 			for i := range v {
-				switch rapid.IntRange(0, 3).Draw(t, label+".ek") {
+				switch pick(t, 4, label+".ek") {
 				case 0:
 					v[i] = 0
 				case 1:
@@ -286,7 +286,7 @@ func newSumVecCase(shares uint8, length, nbits, chunk uint, ctx []byte) (*icase,
 		return o
 	}
 	c.genInvalidMeas = func(t *rapid.T) (any, string) {
-		k := rapid.IntRange(0, 2).Draw(t, "inv.k")
+		k := pick(t, 3, "inv.k")
 		if k == 0 || nbits == 64 {
 			n := int(length) + 1
 			if rapid.Bool().Draw(t, "inv.short") {
@@ -324,7 +324,7 @@ func newHistogramCase(shares uint8, length, chunk uint, ctx []byte) (*icase, *bu
 	}
 	c := &icase{I: I, name: "histogram", desc: fmt.Sprintf("histogram(shares=%d,len=%d,chunk=%d)", shares, length, chunk), shares: int(shares), chunk: int(chunk)}
 	c.genMeas = func(t *rapid.T, label string) (any, bool) {
-		switch rapid.IntRange(0, 3).Draw(t, label+".k") {
+		switch pick(t, 4, label+".k") {
 		case 0:
 			return uint64(0), true
 		case 1:
@@ -344,7 +344,7 @@ func newHistogramCase(shares uint8, length, chunk uint, ctx []byte) (*icase, *bu
 	}
 	c.output = c.encode
 	c.genInvalidMeas = func(t *rapid.T) (any, string) {
-		switch rapid.IntRange(0, 3).Draw(t, "inv.k") {
+		switch pick(t, 4, "inv.k") {
 		case 0:
 			return uint64(length), "bucket==length"
 		case 1:
@@ -358,7 +358,7 @@ func newHistogramCase(shares uint8, length, chunk uint, ctx []byte) (*icase, *bu
 	c.genEdit = func(t *rapid.T, m any) ([]edit, string) {
 		hot := int(m.(uint64))
 		n := int(length)
-		k := rapid.IntRange(0, 3).Draw(t, "h.ek")
+		k := pick(t, 4, "h.ek")
 		if n == 1 {
 			if k == 0 {
 				return []edit{{0, bi(0)}}, "zero-hot"
@@ -415,7 +415,7 @@ func newMhcvCase(shares uint8, length, maxW, chunk uint, ctx []byte) (*icase, *b
 		return v
 	}
 	c.genMeas = func(t *rapid.T, label string) (any, bool) {
-		switch rapid.IntRange(0, 3).Draw(t, label+".k") {
+		switch pick(t, 4, label+".k") {
 		case 0:
 			return make([]bool, length), true
 		case 1:
@@ -463,7 +463,7 @@ func newMhcvCase(shares uint8, length, maxW, chunk uint, ctx []byte) (*icase, *b
 		v := m.([]bool)
 		w := int(weight(v))
 		n := int(length)
-		k := rapid.IntRange(0, 3).Draw(t, "m.ek")
+		k := pick(t, 4, "m.ek")
 		if k <= 1 && maxW < length {
 			// raise the weight above the maximum by setting further entries
 			tgt := rapid.IntRange(int(maxW)+1, n).Draw(t, "m.tw")
@@ -494,6 +494,22 @@ func newMhcvCase(shares uint8, length, maxW, chunk uint, ctx []byte) (*icase, *b
 	return c, nil
 }
 
+// pick is a uniform choice in [0,n): rapid's own integer generators favour
+// small values, which starves the later alternatives of a switch.
+func pick(t *rapid.T, n int, label string) int {
+	// rapid draws small numbers again and again; salting with the label keeps
+	// the favourite draws from mapping to the same alternative everywhere
+	x := rapid.Uint64().Draw(t, label) + 0x9e3779b97f4a7c15 + vlib.Hash64([]byte(label))
+	x ^= x >> 33
+	x *= 0xff51afd7ed558ccd
+	x ^= x >> 33
+	x *= 0xc4ceb9fe1a85ec53
+	x ^= x >> 33
+	return int(x % uint64(n))
+}
+
+func pickFrom[T any](t *rapid.T, xs []T, label string) T { return xs[pick(t, len(xs), label)] }
+
 func seq(n int) []int {
 	o := make([]int, n)
 	for i := range o {
@@ -508,7 +524,7 @@ func seq(n int) []int {
 var sumBounds = []uint64{1, 2, 255, 1 << 32, 1 << 62, 1<<63 - 1}
 
 func drawShares(t *rapid.T) uint8 {
-	switch rapid.IntRange(0, 19).Draw(t, "shares.k") {
+	switch pick(t, 20, "shares.k") {
 	case 0, 1, 2, 3, 4, 5, 6, 7:
 		return 2
 	case 8, 9, 10, 11, 12, 13:
@@ -521,7 +537,7 @@ func drawShares(t *rapid.T) uint8 {
 }
 
 func drawCtx(t *rapid.T) []byte {
-	switch rapid.IntRange(0, 5).Draw(t, "ctx.k") {
+	switch pick(t, 6, "ctx.k") {
 	case 0:
 		return []byte{}
 	case 1:
@@ -532,9 +548,9 @@ func drawCtx(t *rapid.T) []byte {
 }
 
 func drawSumBound(t *rapid.T) uint64 {
-	switch rapid.IntRange(0, 9).Draw(t, "max.k") {
+	switch pick(t, 10, "max.k") {
 	case 0, 1, 2, 3, 4:
-		return rapid.SampledFrom(sumBounds).Draw(t, "max")
+		return pickFrom(t, sumBounds, "max")
 	case 5, 6:
 		k := rapid.IntRange(1, 62).Draw(t, "max.pow")
 		d := rapid.IntRange(-1, 1).Draw(t, "max.d")
@@ -550,7 +566,7 @@ func drawSumBound(t *rapid.T) uint64 {
 }
 
 func drawChunk(t *rapid.T, total int) uint {
-	switch rapid.IntRange(0, 7).Draw(t, "chunk.k") {
+	switch pick(t, 8, "chunk.k") {
 	case 0:
 		return 1
 	case 1:
@@ -587,7 +603,7 @@ func drawCase(t *rapid.T, name string, shares uint8, large bool) (*icase, *build
 		if shares > 16 {
 			maxTotal = 48
 		}
-		nbits := uint(rapid.SampledFrom([]int{1, 1, 2, 3, 8, 16, 32, 63, 64, 0, 0}).Draw(t, "bits"))
+		nbits := uint(pickFrom(t, []int{1, 1, 2, 3, 8, 16, 32, 63, 64, 0, 0}, "bits"))
 		if nbits == 0 {
 			nbits = uint(rapid.IntRange(1, 64).Draw(t, "bits.v"))
 		}
@@ -618,7 +634,7 @@ func drawCase(t *rapid.T, name string, shares uint8, large bool) (*icase, *build
 		}
 		length := uint(rapid.IntRange(1, ml).Draw(t, "length"))
 		var maxW uint
-		switch rapid.IntRange(0, 3).Draw(t, "maxw.k") {
+		switch pick(t, 4, "maxw.k") {
 		case 0:
 			maxW = 1
 		case 1:
